@@ -9,12 +9,14 @@ Imports the executable model and `Lean.Data.Json` only — no Mathlib.
 import Driver.Util
 import Driver.FuelOps
 import Driver.ResultOps
+import Driver.StorageOps
 open Lean Driver
 
 def dispatch (op : String) (j : Json) : Except String Json :=
   match (op.splitOn ".").head! with
   | "fuel" => fuelOp op j
   | "result" => resultOp op j
+  | "storage" => storageOp op j
   | _ => .error s!"unknown op family in '{op}'"
 
 def handle (line : String) : String :=
